@@ -165,6 +165,9 @@ type c13cl struct {
 	// looped clients (wave d): logged in through the real handleNewConnection over an in-memory connection whose
 	// goroutine keeps running the real connection loop; nil for clients registered directly
 	wc *WireClient
+	// wave e: the connection the server holds for this client when the history injects faults at connection teardown
+	// (Close returns an error); nil otherwise
+	fc *faultConn
 }
 
 type c13run struct {
@@ -178,6 +181,7 @@ type c13run struct {
 	checks  int
 	loop    bool // presence-history: some clients log in through the real handleNewConnection
 	barrier uint32
+	faults  bool // wave e (teardown-faults): the server's side of a connection may fail on Close (c13_wave_e.go)
 }
 
 func (h *c13run) live() []*c13cl {
@@ -319,6 +323,10 @@ func (h *c13run) connect(r *RNG) *c13cl {
 	a := r.Intn(len(c13Accts))
 	cc, nc := h.ts.DirectClient(c13Accts[a].login, nil, fmt.Sprintf("10.2.%d.%d:4000", len(h.clients)/200, len(h.clients)%200+1))
 	cl := &c13cl{cc: cc, nc: nc, id: int(binary.BigEndian.Uint16(cc.ID[:])), acct: a, live: true}
+	if h.faults {
+		cl.fc = newFaultConn(nc, r.Intn(c13CloseModes), nc.IsClosed)
+		cc.Connection = cl.fc
+	}
 	h.clients = append(h.clients, cl)
 	h.record(fmt.Sprintf("C %s %s %s %s", hx([]byte(cc.Account.Login)), hx([]byte(cc.Account.Name)), hx(cc.Account.Access[:]), hx(cc.Icon)), nil)
 	h.ops["connect"]++
@@ -1697,7 +1705,7 @@ func runPresenceWire(c *Case) {
 
 func init() {
 	props["C13"] = func(x *Ctx) {
-		x.rule = "histories of connect (1.5+ login, name still empty) / agreed (name, 2- or 4-byte icon, options 0..7, automatic response) / set-client-user-info (with and without options) / set-user (privilege change by users with and without modify-user; toggles the admin flag) / disconnect / instant message (refuse flag, automatic reply, quote, ids nobody holds) / fetch by 2-8 clients over 6 accounts; per-connection inboxes are built by routing every transaction through the real client table; after events (25%) and at the end, when no login is half-way, every client's folded roster must equal a fresh user-list reply. id-wrap: users alive at ids 1,2,3,7,100,65533..65535 while the counter crosses 65 535 / 2^32 with adds and deletes; long-wrap: one 2·10^5-step add/delete history (<= 40 alive) crossing 65 535 three times; disconnect-race: another client's login + list fetch placed (client-manager wrapper) at the moment Disconnect lists the table for its user-left audience, then roster convergence of everybody; targeted: private-chat traffic / message / invitation / info / disconnect addressed to an id after the wrap; option-switch: automatic response / refuse-messages switched on, changed, off (and on) again with set-client-user-info, then a private message each way judged against the current settings; presence-wire: both login flows, Agreed, set-client-user-info, fetch and client-side close over real connections (handleNewConnection + processOutbox), rosters folded from the bytes each connection received. wave d: 45% of the logins of a presence history go through the real handleNewConnection over an in-memory connection and stay in the real connection loop (outbox collected by the harness; a keep-alive closes each batch), the login request carrying the user-name field absent / empty / non-empty on accounts with and without any-name and with an empty or non-empty account Name (announcement due iff the name the request determines is not blank); 8% of the steps are requests the handler cannot digest (set-client-user-info with an Options field of 0 or 1 bytes, Agreed with Options absent or short, a private message with a short user id), through the real loop or the real handleTransaction: user-left to everybody when the session ended, the new row to everybody else when it was kept, every roster right about everybody it lists in every state (never_wrong judged on the implementation), fold = fresh list when settled. non-trivial = history with >= 2 completed logins, a later change or departure and >= 1 roster comparison (presence); every wrap / targeted case; distinct = distinct event lists / parameters"
+		x.rule = "histories of connect (1.5+ login, name still empty) / agreed (name, 2- or 4-byte icon, options 0..7, automatic response) / set-client-user-info (with and without options) / set-user (privilege change by users with and without modify-user; toggles the admin flag) / disconnect / instant message (refuse flag, automatic reply, quote, ids nobody holds) / fetch by 2-8 clients over 6 accounts; per-connection inboxes are built by routing every transaction through the real client table; after events (25%) and at the end, when no login is half-way, every client's folded roster must equal a fresh user-list reply. id-wrap: users alive at ids 1,2,3,7,100,65533..65535 while the counter crosses 65 535 / 2^32 with adds and deletes; long-wrap: one 2·10^5-step add/delete history (<= 40 alive) crossing 65 535 three times; disconnect-race: another client's login + list fetch placed (client-manager wrapper) at the moment Disconnect lists the table for its user-left audience, then roster convergence of everybody; targeted: private-chat traffic / message / invitation / info / disconnect addressed to an id after the wrap; option-switch: automatic response / refuse-messages switched on, changed, off (and on) again with set-client-user-info, then a private message each way judged against the current settings; presence-wire: both login flows, Agreed, set-client-user-info, fetch and client-side close over real connections (handleNewConnection + processOutbox), rosters folded from the bytes each connection received. wave d: 45% of the logins of a presence history go through the real handleNewConnection over an in-memory connection and stay in the real connection loop (outbox collected by the harness; a keep-alive closes each batch), the login request carrying the user-name field absent / empty / non-empty on accounts with and without any-name and with an empty or non-empty account Name (announcement due iff the name the request determines is not blank); 8% of the steps are requests the handler cannot digest (set-client-user-info with an Options field of 0 or 1 bytes, Agreed with Options absent or short, a private message with a short user id), through the real loop or the real handleTransaction: user-left to everybody when the session ended, the new row to everybody else when it was kept, every roster right about everybody it lists in every state (never_wrong judged on the implementation), fold = fresh list when settled. wave e (teardown-faults): presence histories in which the server's end of every connection is wrapped so that Close succeeds / fails the first time / fails every time / fails when the peer is already gone, with users leaving by themselves, on an aborted request, kicked by an administrator (HandleDisconnectUser's own delayed Disconnect) and deleted while logged in (HandleDeleteUser); after every departure: user-left to everybody remaining exactly once, entry gone, every roster right, fold = fresh list; the model runs the same history with the observed close results as inputs (non-trivial = at least one failed Close and one roster comparison). non-trivial = history with >= 2 completed logins, a later change or departure and >= 1 roster comparison (presence); every wrap / targeted case; distinct = distinct event lists / parameters"
 		x.assume = []string{
 			"a client fetches its user list after its own login completed and sends Agreed once (the server does not echo a user's own Agreed back to it)",
 			"roster comparison only when nothing is in flight and no login is half-way (DESIGN §7 C13 Reading); histories are sequential",
@@ -1713,6 +1721,7 @@ func init() {
 			{Name: "presence-wire", Quick: 16, Thor: 300, Run: runPresenceWire},
 			{Name: "option-switch", Quick: 150, Thor: 4000, Run: runOptionSwitch},
 			{Name: "disconnect-race", Quick: 150, Thor: 4000, Run: runDisconnectRace},
+			{Name: "teardown-faults", Quick: 64, Thor: 400, Run: runTeardownFaults},
 		}
 		only := os.Getenv("VERIF_ONLY_FAMILY") // development aid: run a single family
 		for _, f := range fams {
